@@ -63,7 +63,7 @@ theorem partition_covers (own : List CCtx) :
     border, [overflow clip: negative-z contexts, in-flow blocks (background then border each), floats, inline
     content, z = 0 / auto contexts, positive-z contexts ], outlines of the box and of its in-flow descendants ]]]
     — the children of one context are painted in Appendix E's layer order whatever the lists contain. -/
-theorem context_layer_order (id : Nat) (pr : BProps) (neg zero pos : List CCtx) (blocks : List Nat)
+theorem context_layer_order (id : Nat) (pr : BProps) (neg zero pos : List CCtx) (blocks : List (List PEv))
     (floats : List (List PEv)) (lines : List (List PEv)) (kept : List Nat) :
     drawCtx id pr neg zero pos blocks floats lines kept =
       (if pr.opacity then [(id, Layer.groupOpen)] else [])
@@ -71,7 +71,7 @@ theorem context_layer_order (id : Nat) (pr : BProps) (neg zero pos : List CCtx) 
       ++ (if pr.blockLevel || pr.inlineBlock then [(id, .background), (id, .border)] else [])
       ++ (if pr.overflow then [(id, Layer.clipOpen)] else [])
       ++ neg.flatMap (·.2)
-      ++ blocks.flatMap (fun b => [(b, Layer.background), (b, Layer.border)])
+      ++ blocks.flatten
       ++ floats.flatten
       ++ lines.flatten
       ++ zero.flatMap (·.2)
@@ -84,14 +84,14 @@ theorem context_layer_order (id : Nat) (pr : BProps) (neg zero pos : List CCtx) 
 
 /-- for a block-level box that forms a (pseudo-)context: background < border < the paints of its context <
     its outline -/
-theorem box_layers_order (id : Nat) (pr : BProps) (h : pr.blockLevel = true) (parts : List CCtx) (blocks : List Nat)
+theorem box_layers_order (id : Nat) (pr : BProps) (h : pr.blockLevel = true) (parts : List CCtx) (blocks : List (List PEv))
     (floats : List (List PEv)) (lines : List (List PEv)) (inflow : List Nat) :
     ∃ pre mid post, layers id pr parts blocks floats lines inflow
       = pre ++ (id, Layer.background) :: (id, Layer.border) :: mid ++ (id, Layer.outline) :: post
       ∧ (∀ e ∈ pre, e = (id, Layer.groupOpen) ∨ e = (id, Layer.xformOpen)) := by
   refine ⟨(if pr.opacity then [(id, Layer.groupOpen)] else []) ++ (if pr.transform then [(id, Layer.xformOpen)] else []),
     (if pr.overflow then [(id, Layer.clipOpen)] else []) ++ (((sortZ (parts.filter (·.1 < 0))).flatMap (·.2)
-      ++ (blocks.flatMap (fun b => [(b, Layer.background), (b, Layer.border)])
+      ++ (blocks.flatten
       ++ (floats.flatten
       ++ (lines.flatten
       ++ ((parts.filter (·.1 == 0)).flatMap (·.2)
@@ -105,7 +105,7 @@ theorem box_layers_order (id : Nat) (pr : BProps) (h : pr.blockLevel = true) (pa
 /-- group_encloses_subtree, the part that is a matter of shape: what a box with opacity < 1 paints is exactly
     `group-open … group-close`; the transform scope lies inside the group and contains every paint; the
     overflow clip contains steps 3-9 and neither the box's background/border nor its outline. -/
-theorem group_brackets_shape (id : Nat) (pr : BProps) (parts : List CCtx) (blocks : List Nat)
+theorem group_brackets_shape (id : Nat) (pr : BProps) (parts : List CCtx) (blocks : List (List PEv))
     (floats : List (List PEv)) (lines : List (List PEv)) (inflow : List Nat) :
     ∃ bgbd inner outl,
       layers id pr parts blocks floats lines inflow =
@@ -120,7 +120,7 @@ theorem group_brackets_shape (id : Nat) (pr : BProps) (parts : List CCtx) (block
       ∧ outl = inflow.map (fun b => (b, Layer.outline)) := by
   refine ⟨if pr.blockLevel || pr.inlineBlock then [(id, .background), (id, .border)] else [],
     ((sortZ (parts.filter (·.1 < 0))).flatMap (·.2)
-      ++ (blocks.flatMap (fun b => [(b, Layer.background), (b, Layer.border)])
+      ++ (blocks.flatten
       ++ (floats.flatten
       ++ (lines.flatten
       ++ ((parts.filter (·.1 == 0)).flatMap (·.2)
@@ -150,7 +150,7 @@ theorem pseudo_context_lifts (b : Box) (cc : List CCtx) :
   | mk id pr children =>
     exact ctx_some_of id pr children cc (dispatchChildren_eq children)
 
-def pr0 : BProps := ⟨false, none, false, false, false, false, true, false, false, false⟩
+def pr0 : BProps := ⟨false, none, false, false, false, false, true, false, false, false, false, false⟩
 /-- a text run -/
 def txt (n : Nat) : Box := .mk n { pr0 with blockLevel := false, text := true } []
 
@@ -166,7 +166,7 @@ theorem witness_spec : specOrder witness =
     [(9, .background), (9, .border),
      (2, .groupOpen), (2, .background), (2, .border), (12, .content), (2, .outline), (12, .outline), (2, .groupClose),
      (1, .background), (1, .border), (11, .content), (1, .outline), (11, .outline), (9, .outline)] := by
-  simp [witness, pr0, txt, inlineOf, specOrder, specReal, specPseudo, layers, participants, flowBlocks, floatsOf, flowLines, flowAll,
+  simp [witness, pr0, txt, inlineOf, blockPaint, specOrder, specReal, specPseudo, layers, participants, flowBlocks, floatsOf, flowLines, flowAll,
     BProps.inFlow, BProps.specZ, BProps.makesContext, sortZ, insertZ]
 
 /-- b2 (layer 8: z-index does not apply) is painted before b1 (layer 9) by the model too -/
@@ -175,6 +175,25 @@ theorem witness_model : paintOrder witness =
      (2, .groupOpen), (2, .background), (2, .border), (12, .content), (2, .outline), (12, .outline), (2, .groupClose),
      (1, .background), (1, .border), (11, .content), (1, .outline), (11, .outline), (9, .outline)] := by
   rw [paint_order_respects_E, witness_spec]
+
+/-- tables (E.2 step 4 and 7): a table of two cells followed by a block, in one context — the cells' backgrounds
+    then their borders are painted with the table (step 4, before the later block's background), and at step 7
+    the text of the cells comes before the text of the later block: tree order over blocks AND cells -/
+example : paintOrder (.mk 9 pr0
+    [.mk 1 { pr0 with table := true }
+       [.mk 2 { pr0 with blockLevel := false }   -- row
+          [.mk 3 { pr0 with blockLevel := false, tableCell := true, hasLines := true } [txt 13],
+           .mk 4 { pr0 with blockLevel := false, tableCell := true, hasLines := true } [txt 14]]],
+     .mk 5 { pr0 with hasLines := true } [txt 15]])
+  = [(9, .background), (9, .border),
+     (1, .background), (3, .background), (4, .background), (1, .border), (3, .border), (4, .border),
+     (5, .background), (5, .border),
+     (13, .content), (14, .content), (15, .content),
+     (9, .outline), (1, .outline), (2, .outline), (3, .outline), (13, .outline), (4, .outline), (14, .outline),
+     (5, .outline), (15, .outline)] := by
+  rw [paint_order_respects_E]
+  simp [pr0, txt, inlineOf, blockPaint, cellsOf, cellsOfL, specOrder, specReal, specPseudo, layers, participants, flowBlocks,
+    floatsOf, flowLines, flowAll, BProps.inFlow, BProps.specZ, BProps.makesContext, sortZ, insertZ]
 
 /-! ## group_encloses_subtree
 
@@ -197,7 +216,7 @@ def clipWitness : Box :=
 theorem clipWitness_spec : specOrder clipWitness =
     [(9, .background), (9, .border), (1, .background), (1, .border), (1, .clipOpen), (2, .background), (2, .border),
      (12, .content), (1, .clipClose), (1, .outline), (2, .outline), (12, .outline), (9, .outline)] := by
-  simp [clipWitness, pr0, txt, inlineOf, specOrder, specReal, specPseudo, layers, participants, flowBlocks, floatsOf, flowLines, flowAll,
+  simp [clipWitness, pr0, txt, inlineOf, blockPaint, specOrder, specReal, specPseudo, layers, participants, flowBlocks, floatsOf, flowLines, flowAll,
     BProps.inFlow, BProps.specZ, BProps.makesContext, sortZ, insertZ]
 
 theorem group_encloses_subtree_false : enclosureJudge clipWitness (specOrder clipWitness) = false := by
